@@ -19,6 +19,14 @@ Proof.
   destruct (Req_dec x 0) as [->|]; [destruct (Req_dec y 0) as [->|]; [now elim H|]|]; nra.
 Qed.
 
+Lemma C_zero_dec (z : C) : z = (0, 0) \/ z <> (0, 0).
+Proof.
+  destruct z as [x y]. destruct (Req_dec x 0) as [->|Hx]; [destruct (Req_dec y 0) as [->|Hy]|].
+  - now left.
+  - right; intros E; inversion E; lra.
+  - right; intros E; inversion E; lra.
+Qed.
+
 Lemma hypot_sq (x y : R) : Rsqrt (x * x + y * y) * Rsqrt (x * x + y * y) = x * x + y * y.
 Proof. apply sqrt_sqrt; nra. Qed.
 
